@@ -150,6 +150,8 @@ def campaign(ctx: Ctx, prop: str, profile: dict, n: int, corpus: list, required_
             ctx.case({"executor": ex, "calls": len(scen["calls"]), "script": [c["c"] for c in scen["script"]]},
                      nontrivial=len(scen["calls"]) >= 2 or len(scen["script"]) >= 3)
             ctx.count("mode.block" if ex.get("block_allocation") else "mode.percall")
+            if ex.get("cache_directory"):
+                ctx.count("with_cache_directory")
             ctx.count("resolver.on" if not ex.get("disable_dependencies") else "resolver.off")
             ctx.count("calls.%d" % len(scen["calls"]))
             for c in scen["script"]:
